@@ -1222,3 +1222,17 @@ Proof.
   - apply (relc_mono e e' _ _ H). apply Hsc.
   - destruct (Hsq z) as (w & Ew & Hw). exists w. split; [exact Ew|]. now apply (relc_mono e e' _ _ H).
 Qed.
+
+(* the backward form from the local hypotheses *)
+Theorem quadratic_backward_local_lemma (eps : R) (O : RoundOps) (a b c : C) :
+  0 <= eps <= / 100 -> a <> C0 -> quad_ops_ok eps O a b c ->
+  exists r0 r1 : C, poly_solve (RoundRAo eps O) [c; b; a] false = Ok ([r0; r1], []) /\
+    forall x : C, x = r0 \/ x = r1 ->
+      exists da db dc : C,
+        Cmod da <= 16 * eps * Cmod a /\ Cmod db <= 16 * eps * Cmod b /\ Cmod dc <= 16 * eps * Cmod c /\
+        ((a + da) * x * x + (b + db) * x + (c + dc))%C = C0.
+Proof.
+  intros Heps Ha H. destruct (quadratic_residual_local_lemma eps O a b c Heps Ha H) as (r0 & r1 & E & B).
+  exists r0, r1. split; [exact E|]. intros x Hx.
+  apply (residual_to_backward a b c x (16 * eps)); [lra|]. exact (B x Hx).
+Qed.
